@@ -3,12 +3,14 @@ package sym
 import (
 	"fmt"
 	"os"
+	"strings"
 
 	"golang.org/x/tools/go/ssa"
 )
 
 var debugMerge = os.Getenv("GOSYM_DEBUG_MERGE") != ""
 var mergeMode = os.Getenv("GOSYM_MERGE_MODE")
+var mergeSkip = os.Getenv("GOSYM_MERGE_SKIP")
 
 
 // Pure-region if-conversion (DESIGN §2.3): both sides of a feasible two-way branch are executed
@@ -100,10 +102,84 @@ func (in *Interp) ipdom(fn *ssa.Function) map[*ssa.BasicBlock]*ssa.BasicBlock {
 }
 
 type sideResult struct {
-	writes map[*Cell]Value
-	phis   []Value
-	ret    Value
-	ok     bool
+	writes  map[*Cell]Value
+	phis    []Value
+	ret     Value
+	ok      bool
+	envDiff map[ssa.Value]Value // registers that existed before the branch and were redefined by the side (loop-carried values)
+}
+
+// identicalValue: conservative identity test on register values.
+func identicalValue(a, b Value) bool {
+	switch x := a.(type) {
+	case *Term:
+		y, ok := b.(*Term)
+		return ok && x == y
+	case Ptr:
+		y, ok := b.(Ptr)
+		return ok && ptrEq(x, y)
+	case SliceV:
+		y, ok := b.(SliceV)
+		return ok && x == y
+	case StrV:
+		y, ok := b.(StrV)
+		if !ok || (x.sym == nil) != (y.sym == nil) {
+			return false
+		}
+		if x.sym == nil {
+			return x.s == y.s
+		}
+		if len(x.sym) != len(y.sym) {
+			return false
+		}
+		for i := range x.sym {
+			if x.sym[i] != y.sym[i] {
+				return false
+			}
+		}
+		return true
+	case MapV:
+		y, ok := b.(MapV)
+		return ok && x.m == y.m
+	case IfaceV:
+		y, ok := b.(IfaceV)
+		if !ok {
+			return false
+		}
+		if x.t == nil || y.t == nil {
+			return x.t == nil && y.t == nil
+		}
+		return x.t == y.t && identicalValue(x.v, y.v)
+	case *ssa.Function:
+		return a == b
+	case *mapIter:
+		return a == b
+	case nil:
+		return b == nil
+	case TupleV:
+		y, ok := b.(TupleV)
+		if !ok || len(x) != len(y) {
+			return false
+		}
+		for i := range x {
+			if !identicalValue(x[i], y[i]) {
+				return false
+			}
+		}
+		return true
+	case StructV:
+		y, ok := b.(StructV)
+		if !ok || len(x) != len(y) {
+			return false
+		}
+		for i := range x {
+			if !identicalValue(x[i], y[i]) {
+				return false
+			}
+		}
+		return true
+	}
+	return false
 }
 
 // runSide executes one side of the branch speculatively and undoes its effects.
@@ -140,6 +216,15 @@ func (in *Interp) runSide(fr *Frame, b *ssa.BasicBlock, start, join *ssa.BasicBl
 		}
 		in.knownLog = in.knownLog[:knownLen]
 		fr.block, fr.prev = savedBlock, savedPrev
+		// registers defined before the branch and redefined by the side (a side that runs through a loop
+		// header redefines the loop's phis, which may be read at or after the join)
+		diff := map[ssa.Value]Value{}
+		for k, old := range savedEnv {
+			if nv, ok := fr.env[k]; ok && !identicalValue(old, nv) {
+				diff[k] = nv
+			}
+		}
+		res.envDiff = diff
 		fr.env = savedEnv
 		fr.defers = fr.defers[:savedDefers]
 		fr.done = false
@@ -231,6 +316,9 @@ func (in *Interp) tryMerge(fr *Frame, b *ssa.BasicBlock, cond *Term) (okRes bool
 	if join == nil && mergeMode == "no-ret" {
 		return false, nil
 	}
+	if mergeSkip != "" && strings.Contains(fr.fn.String(), mergeSkip) {
+		return false, nil
+	}
 	if in.mergeBlacklist[b] >= 3 {
 		return false, nil
 	}
@@ -293,6 +381,38 @@ func (in *Interp) tryMerge(fr *Frame, b *ssa.BasicBlock, cond *Term) (okRes bool
 		}
 		phiVals = append(phiVals, mv)
 	}
+	// loop-carried registers
+	type regUpd struct {
+		k ssa.Value
+		v Value
+	}
+	var regUpds []regUpd
+	if join != nil {
+		seenReg := map[ssa.Value]bool{}
+		for _, side := range []map[ssa.Value]Value{a.envDiff, c.envDiff} {
+			for k := range side {
+				if seenReg[k] {
+					continue
+				}
+				seenReg[k] = true
+				va, oka := a.envDiff[k]
+				if !oka {
+					va = fr.env[k]
+				}
+				vb, okb := c.envDiff[k]
+				if !okb {
+					vb = fr.env[k]
+				}
+				mv, ok := in.mergeValue(cond, va, vb)
+				if !ok {
+					in.Stats.MergeFails++
+					in.mergeBlacklist[b]++
+					return false, nil
+				}
+				regUpds = append(regUpds, regUpd{k, mv})
+			}
+		}
+	}
 	var retVal Value
 	if join == nil {
 		mv, ok := in.mergeValue(cond, a.ret, c.ret)
@@ -310,10 +430,20 @@ func (in *Interp) tryMerge(fr *Frame, b *ssa.BasicBlock, cond *Term) (okRes bool
 		u.c.v = u.v
 	}
 	in.Stats.Merges++
+	if debugMerge {
+		jn := -1
+		if join != nil {
+			jn = join.Index
+		}
+		fmt.Fprintf(os.Stderr, "merge ok in %s block %d join %d writes=%d/%d phis=%d\n", fr.fn, b.Index, jn, len(a.writes), len(c.writes), len(phiVals))
+	}
 	if join == nil {
 		fr.result = retVal
 		fr.done = true
 		return true, nil
+	}
+	for _, u := range regUpds {
+		fr.env[u.k] = u.v
 	}
 	for k, instr := range join.Instrs {
 		phi, ok := instr.(*ssa.Phi)
